@@ -433,6 +433,7 @@ class Session:
         self.call_vars = []
         self.plan = uberjob.Plan()
         self.ref = {}           # id(Node) -> reference value (direct evaluation), for statement nodes
+        self.build_violation = None
         self.events = {"rebuilt": 0, "collapsed": 0, "unhashable": 0, "unpack_len": 0, "unpack_type": 0, "unpack_ok": 0}
         self.extra_deps = {}    # id(Node) -> [Node]   (add_dependency)
         self.arg_deps = {}      # id(Node) -> [Node]
@@ -530,6 +531,29 @@ class Session:
                 nds = plan.unpack(o, st[1])
                 acc = []
                 node_deps(o, acc)
+                if any(id(nd) in self.ref for nd in nds):
+                    # `unpack` handed out nodes that already existed (instead of new symbolic items): the reference cannot tell
+                    # them from the variables they already are.  Judge it here: they must be, in order, the items of the
+                    # EVALUATED iterable - and if that has another number of items, the error due at run time is lost.
+                    memo = {}
+                    ev = self.direct(o, memo)
+                    try:
+                        items = None if ev is FAIL else list(iter(ev))
+                    except TypeError:
+                        items = None
+                    if items is None or len(items) != st[1]:
+                        self.build_violation = ("plan.unpack(<a container with nodes in it>, %d) handed out nodes that already existed; the "
+                                                "evaluated container has %s items, so the ValueError due when the plan runs can no longer "
+                                                "happen" % (st[1], "no" if items is None else len(items)))
+                    else:
+                        got = [self.canon(self.value(nd, memo) if id(nd) in self.ref else getattr(nd, "value", FAIL)) for nd in nds]
+                        want = [self.canon(x) for x in items]
+                        if got != want:
+                            self.build_violation = ("plan.unpack(<a container with nodes in it>, %d) yields %s, the items of the evaluated "
+                                                    "container are %s" % (st[1], got, want))
+                    for nd in nds:
+                        self.add_var(nd)
+                    continue
                 for i, nd in enumerate(nds):
                     self.ref[id(nd)] = ("item", o, st[1], i)
                     self.arg_deps[id(nd)] = acc
@@ -940,6 +964,12 @@ FIXED = [
     {"stmts": [["unpack", 2, ["L", 1, [["a", 1]]]]], "out": ["n", 1]},
     {"stmts": [["lit", ["a", 1]]], "out": None},
     {"stmts": [["lit", ["a", 1]]], "out": ["L", 1, [["a", 2], ["T", 2, [["a", 3]]]]]},
+    # unpack applied DIRECTLY to a set / a dict that contains nodes: it is the EVALUATED container that is unpacked - two nodes
+    # with equal values are one element of the set (then there are not 2 items), two node keys with equal values one key
+    {"stmts": [["lit", ["T", 1, [["a", 1]]]], ["lit", ["T", 2, [["a", 1]]]], ["unpack", 2, ["S", 3, [["n", 0], ["n", 1]]]]], "out": ["n", 2]},
+    {"stmts": [["lit", ["T", 1, [["a", 1]]]], ["lit", ["T", 2, [["a", 1]]]],
+               ["unpack", 2, ["D", 3, [[["n", 0], ["a", 2]], [["n", 1], ["a", 3]]]]]], "out": ["n", 3]},
+    {"stmts": [["lit", ["a", 1]], ["unpack", 1, ["D", 3, [[["n", 0], ["a", 2]]]]]], "out": ["n", 1]},
 ]
 
 
@@ -973,6 +1003,9 @@ def explore(ctx):
         for p, s, rep in zip(chunk, sessions, replies):
             seed = rng.randrange(1 << 30)
             if s is None:
+                continue
+            if s.build_violation:
+                viol.append({"property": "C02", "what": s.build_violation, "prog": p})
                 continue
             v, d, st = check_session(s, p, rep, configs, seed)
             viol += v
